@@ -22,7 +22,7 @@ with tempfile.TemporaryDirectory() as d:
 missing = [t for t in stable if t not in passed]
 for f in os.listdir(repo):
     if f.startswith("req_GET_profile.") and f.endswith(".profile"):
-        pass
+        os.remove(os.path.join(repo, f))      # left behind by the integrity tests
 print("stable %d, passed %d of them, missing %d" % (len(stable), len(stable) - len(missing), len(missing)))
 for m in missing:
     print("  MISSING", m)
